@@ -14,8 +14,8 @@ def main():
     build.build_driver("d_elem")
     for cfg in props.SIMPLE.values():
         build.build_driver(cfg["driver"], **cfg.get("driver_kw", {}))
-    build.build_driver("d_alloc", uses_xsimd=True, extra=["-march=native"])
-    build.build_driver("d_alloc", uses_xsimd=True, extra=["-march=native", "-fsanitize=address", "-fno-omit-frame-pointer", "-g"])
+    build.build_driver("d_alloc", uses_xsimd=True, extra=["-march=native", "-DXSIMD_WITH_EMULATED=1"])
+    build.build_driver("d_alloc", uses_xsimd=True, extra=["-march=native", "-DXSIMD_WITH_EMULATED=1", "-fsanitize=address", "-fno-omit-frame-pointer", "-g"])
     build.build_driver("d_cplx")
     build.build_shims(["cplx"])
     build.build_fuzzers("fuzz_mem", props.FUZZ_TARGETS)
